@@ -687,6 +687,9 @@ def c11(tier, seed):
     tcfg = [("c11-ow", dict(OneWayT=True, MaxSend=1, Depth=3 if tier == "quick" else 4, BadBudget=1, SetBudget=0, SmallBufs=True, BigBudget=1)),
             ("c11-ow-sl", dict(OneWayT=True, Stateful=False, MaxSend=1, Depth=2 if tier == "quick" else 3, BadBudget=1, SetBudget=0,
                                SmallBufs=True, BigBudget=1))]
+    # the one-way rule holds whatever was done to the keys in between (rekeys of either kind on either side)
+    tcfg.append(("c11-ow-rekey", dict(OneWayT=True, MaxSend=1, Depth=2 if tier == "quick" else 4, BadBudget=0, SetBudget=0, RekeyBudget=1 if tier == "quick" else 2,
+                                      SmallBufs=False)))
     tl2, rl2 = tlegs("C11", seed, tcfg)
     res = merge("model_checking", [t] + tl2, [r] + rl2,
                  "TLC explores spec/MC_StateMachine.tla exhaustively: every sequence of calls from {write valid / into an "
